@@ -24,7 +24,7 @@ def run(tier):
     c.exhaustive = True
     c.rule = ("small scope: every insertion sequence of <=3 grid points (3x3, ties and duplicates) followed by every "
               "erase order, plus a seeded sample of the length-4%s sequences, each fully observed (probe of all 9 "
-              "points, all 256 boxes); random histories <=300 ops on grids of side 2..12 (2-D, 3-D, 4-D) with "
+              "points, all 256 boxes); random histories <=300 ops on grids of side 2..12 (2-D, 3-D, 4-D; unsigned 32/64-bit coordinates; inserts whose value copy throws) with "
               "iterate+erase; distinct = insertion-sequence tie/duplicate patterns + (operation, outcome) classes"
               % ("" if quick else "/5"))
     c.assumptions = ["entries are read by iterating the real tree; ASan/LSan sense memory errors (Crash events)"]
